@@ -137,6 +137,8 @@ func RefScalar(k Kind, base int, s string) (interface{}, Verdict) {
 		return s, Accept
 	case KComp:
 		return Comp(s), Accept
+	case KValid:
+		return Valid(s), Accept
 	case KUpper:
 		if strings.Contains(s, "!bad") {
 			return nil, Reject
